@@ -189,6 +189,10 @@ def aliased_case(draw):
     b = _variant(draw, a)
     if b is None or any(n["t"] == "alias" for n, _ in specs.walk(b)):
         b = a
+    try:
+        draw(values.conforming(b))      # (a single-step variant of a satisfiable spec need not be satisfiable)
+    except values.Unsat:
+        b = a
     if draw(st.booleans()):
         a, b = b, a
     try:
